@@ -41,4 +41,19 @@ CLAIMS = {
         'technique': 'static analysis: extracted operator/ordering tables vs CPython operator oracle (exhaustive), '
                      'finite-domain decision table of the dispatcher (ast only)',
     },
+    'C05': {
+        'text': "Acquire/release on a statement-level CFG with exception edges: in every function that calls "
+                "_start_mocking, every path to the normal exit and to the exceptional exit under each builtin "
+                "exception atom (exec/compile/tracer enter+exit raise every atom, the recording call raises "
+                "Exception atoms) must pass _stop_mocking, and release must precede recording in every handler. "
+                "Ownership: who writes the two stacks, who may call _stop_patches/_start_patches (whole-program "
+                "call-site sweep), what is handed to _start_patches, a sweep of pedal/sandbox for unpatched writes to "
+                "sys.stdout/sys.modules/time.sleep/builtins/settrace, tracer enter/exit pairing for all four styles, "
+                "and the private builtins dict.",
+        'note': _NOTE + "Assumes undesignated statements do not raise and unittest.mock restores what it patched. "
+                        "The timeout arm releasing through _stop_patches directly is a recorded known finding "
+                        "(shared with C14).",
+        'technique': 'static analysis: must-pass-through on an exception-edge CFG, who-may-call / who-writes '
+                     'ownership sweeps (ast only)',
+    },
 }
